@@ -109,6 +109,11 @@ fn apply<V: TooDeeOpsMut<u32> + CopyOps<u32>>(v: &mut V, op: &TOp, base: *const 
                 1 => v.sort_unstable_by_row(l, |a, b| key(a).cmp(&key(b))),
                 2 => v.sort_by_row_key(l, |a| key(a)),
                 3 => v.sort_unstable_by_row_key(l, |a| key(a)),
+                // the same with a one-byte key type (variant + 20)
+                22 => v.sort_by_row_key(l, |a| key(a) as u8),
+                23 => v.sort_unstable_by_row_key(l, |a| key(a) as u8),
+                28 => v.sort_by_col_key(l, |a| key(a) as u8),
+                29 => v.sort_unstable_by_col_key(l, |a| key(a) as u8),
                 4 => v.sort_row_ord::<()>(l),
                 5 => v.sort_unstable_row_ord::<()>(l),
                 6 => v.sort_by_col::<_>(l, |a, b| key(a).cmp(&key(b))),
@@ -159,7 +164,73 @@ fn encode_op(op: &TOp, sigma: &[u64], o: &mut Vec<u64>) {
     }
 }
 
+/// the same operation on an array of zero-sized elements of the same shape (kind + 10):
+/// cells cannot be observed, only whether the call returns or panics and the buffer's length
+pub fn emit_zst(out: &mut Out, prop: u32, case: &OCase) {
+    let (c, r) = (case.c as usize, case.r as usize);
+    // all cells are the one value the type has: zeros in the model, the identity as the
+    // permutation an unstable sort "produced"
+    let mut inp = vec![DBG as u64, case.kind + 10, case.c, case.r, case.win.0, case.win.1, case.win.2, case.win.3, case.data.len() as u64];
+    inp.extend(case.data.iter().map(|_| 0u64));
+    let sigma: Vec<u64> = if let TOp::Sort(var, line) = &case.op {
+        let (nc, nr) = if case.kind == 2 { let (a, b) = (case.win.2.saturating_sub(case.win.0), case.win.3.saturating_sub(case.win.1)); if a == 0 || b == 0 { (0, 0) } else { (a, b) } } else { (case.c, case.r) };
+        let (lines, n) = if var % 20 >= 6 { (nc, nr) } else { (nr, nc) };
+        if *line < lines { (0..n).collect() } else { vec![] }
+    } else { vec![] };
+    encode_op(&case.op, &sigma, &mut inp);
+    if out.want_sample() { out.sample(&format!("C{:02} zero-sized elements {:?}", prop, case)); }
+    out.begin(prop, 6, &inp);
+    let mut t: TooDee<()> = TooDee::from_vec(c, r, vec![(); c * r]);
+    let (s, e) = ((case.win.0 as usize, case.win.1 as usize), (case.win.2 as usize, case.win.3 as usize));
+    fn apply_z<V: TooDeeOpsMut<()> + CopyOps<()>>(v: &mut V, op: &TOp) {
+        let u = |x: &u64| *x as usize;
+        match op {
+            TOp::Fill(_) => v.fill(()),
+            TOp::SwapRows(a, b) => v.swap_rows(u(a), u(b)),
+            TOp::Swap(a, b, c, d) => v.swap((u(a), u(b)), (u(c), u(d))),
+            TOp::SwapCols(a, b) => v.swap_cols(u(a), u(b)),
+            TOp::RowPair(a, b) => { let _ = v.row_pair_mut(u(a), u(b)); }
+            TOp::CopyFromSlice(false, s) => v.copy_from_slice(&vec![(); s.len()]),
+            TOp::CopyFromSlice(true, s) => v.clone_from_slice(&vec![(); s.len()]),
+            TOp::CopyFromTooDee(clone, _, sc, sr, _) => {
+                let src = TooDee::from_vec(u(sc), u(sr), vec![(); u(sc) * u(sr)]);
+                if *clone { v.clone_from_toodee(&src) } else { v.copy_from_toodee(&src) }
+            }
+            TOp::CopyWithin(a, b, c, d, e, f) => v.copy_within(((u(a), u(b)), (u(c), u(d))), (u(e), u(f))),
+            TOp::Translate(a, b) => v.translate_with_wrap((u(a), u(b))),
+            TOp::FlipRows => v.flip_rows(),
+            TOp::FlipCols => v.flip_cols(),
+            TOp::Sort(var, line) => {
+                let l = u(line);
+                match var % 20 {
+                    0 => v.sort_by_row(l, |a, b| a.cmp(b)),
+                    1 => v.sort_unstable_by_row(l, |a, b| a.cmp(b)),
+                    2 => v.sort_by_row_key(l, |_| 0u8),
+                    3 => v.sort_unstable_by_row_key(l, |_| 0u8),
+                    4 => v.sort_row_ord::<()>(l),
+                    5 => v.sort_unstable_row_ord::<()>(l),
+                    6 => v.sort_by_col::<_>(l, |a, b| a.cmp(b)),
+                    7 => v.sort_unstable_by_col(l, |a, b| a.cmp(b)),
+                    8 => v.sort_by_col_key(l, |_| 0u8),
+                    9 => v.sort_unstable_by_col_key(l, |_| 0u8),
+                    _ => v.sort_col_ord::<()>(l),
+                }
+            }
+            TOp::SortFuse(..) => {}
+            TOp::SetCell(c, r, _) => v[(u(c), u(r))] = (),
+            TOp::SetRowCell(c, r, _) => v[u(r)][u(c)] = (),
+        }
+    }
+    let ok = catch_unwind(AssertUnwindSafe(|| match case.kind {
+        0 => apply_z(&mut t, &case.op),
+        2 => { let mut v = t.view_mut(s, e); apply_z(&mut v, &case.op) }
+        _ => { let mut v = TooDeeViewMut::new(c, r, t.data_mut()); apply_z(&mut v, &case.op) }
+    })).is_ok();
+    out.end(&[ok as u64, t.data().len() as u64]);
+}
+
 pub fn emit(out: &mut Out, prop: u32, case: &OCase) {
+    if case.kind >= 10 { let mut k = case.clone(); k.kind -= 10; return emit_zst(out, prop, &k); }
     let (c, r) = (case.c as usize, case.r as usize);
     let mut t = TooDee::from_vec(c, r, case.data.clone());
     let base = t.data().as_ptr();
@@ -181,7 +252,7 @@ pub fn emit(out: &mut Out, prop: u32, case: &OCase) {
                 let o = if case.kind == 4 { 1 } else { 0 };
                 let (a, b) = (e.0 - s.0, e.1 - s.1); if a == 0 || b == 0 { (0, 0, 0, 0) } else { (s.0 + o, s.1 + o, a, b) } };
             let l = *line as usize;
-            if *var >= 6 { if l < nc { (0..nr).map(|y| t[(x0 + l, y0 + y)]).collect() } else { vec![] } }
+            if *var % 20 >= 6 { if l < nc { (0..nr).map(|y| t[(x0 + l, y0 + y)]).collect() } else { vec![] } }
             else if l < nr { (0..nc).map(|x| t[(x0 + x, y0 + l)]).collect() } else { vec![] }
         } else { vec![] }
     };
@@ -208,6 +279,8 @@ pub fn emit(out: &mut Out, prop: u32, case: &OCase) {
         out.begin(prop, 6, &header(&sigma));
     }
     out.end(&obs);
+    // the same call on zero-sized elements (owned, window, slice-constructed view)
+    if matches!(case.kind, 0 | 2 | 6) && !matches!(case.op, TOp::SortFuse(..)) && case.data.len() <= 64 { emit_zst(out, prop, case); }
 }
 
 pub fn replay(out: &mut Out, prop: u32, inp: &[u64]) {
@@ -424,10 +497,15 @@ pub fn gen_sort(out: &mut Out, prop: u32, tier: &str, rng: &mut Rng) {
     }
     // long key lines with many ties: beyond the length (20 / 32 elements, depending on the
     // standard library) up to which slice::sort_unstable happens to behave like a stable sort
-    let lens: &[u64] = if tier == "quick" { &[21, 33, 48] } else { &[21, 32, 33, 40, 64, 100, 257] };
+    // (lines longer than 256 and key functions returning a one-byte type - variant + 20 -
+    // are there for index-narrowing tricks in cached-key sorts)
+    let lens: &[u64] = if tier == "quick" { &[21, 33, 48, 257, 300] } else { &[21, 32, 33, 40, 64, 100, 256, 257, 600, 1000] };
     let reps = if tier == "quick" { 2 } else { 8 };
-    for &n in lens { for other in [1u64, 2, 3] { for &var in &variants { for kind in [0u64, 2, 3] { for rep in 0..reps {
-        let is_col = var >= 6;
+    let mut long_variants: Vec<u64> = variants.clone();
+    long_variants.extend(variants.iter().filter(|v| matches!(**v, 2 | 3 | 8 | 9)).map(|v| v + 20));
+    for &n in lens { for other in [1u64, 2, 3] { for &var in &long_variants { for kind in [0u64, 2, 3] { for rep in 0..reps {
+        if n > 100 && (other == 3 || kind == 3 || rep >= 2) { continue; }
+        let is_col = var % 20 >= 6;
         let (nc, nr) = if is_col { (other, n) } else { (n, other) };
         let rc = if kind == 0 { Recv { kind, c: nc, r: nr, win: (0, 0, 0, 0), nc, nr } }
                  else { Recv { kind, c: nc + 2, r: nr + 1, win: (1, 1, nc + 1, nr + 1), nc, nr } };
